@@ -197,7 +197,7 @@ func c07Run(c *Ctx) {
 		return
 	}
 	var calls []unkCall
-	hmode := int(c.K/3) % 3 // 0: prepend sentinel, 1: return args unchanged, 2: drop everything
+	hmode := int(c.K/3) % 4 // 0: prepend sentinel, 1: return args unchanged, 2: replace everything, 3: return an empty slice
 	if policy == "handler" {
 		b.P.UnknownOptionHandler = func(option string, arg flags.SplitArgument, a []string) ([]string, error) {
 			v, ok := arg.Value()
@@ -207,6 +207,11 @@ func c07Run(c *Ctx) {
 				return append([]string{"--zz-sentinel-flag"}, a...), nil
 			case 1:
 				return a, nil
+			case 3:
+				if len(a)%2 == 0 {
+					return nil, nil
+				}
+				return []string{}, nil
 			}
 			return []string{"--zz-sentinel-flag", "--zz-sentinel-flag"}, nil
 		}
@@ -287,6 +292,8 @@ func c07Run(c *Ctx) {
 			after = append(after, valid[pos:]...)
 		case 2:
 			after = append(after, &Item{Kind: IFlag, Opt: sentinel, Long: true}, &Item{Kind: IFlag, Opt: sentinel, Long: true})
+		case 3:
+			// nothing is parsed after the unknown option
 		}
 		if cluster {
 			// known members of the cluster before the unknown rune have taken effect: outside the statement
